@@ -147,9 +147,14 @@ def run(ctx):
     ctx.assumptions += ['exec() of the generated wrapper and CPython\'s own argument binding are not modelled beyond the '
                         'binding rule of C04/Wrap.v, which is itself compared with CPython on every call',
                         'bound methods (self skipping) are exercised by the repository tests only']
-    regenerate(ctx)
     proof_err = None
     try:
+        regenerate(ctx)
+    except CoqFailure as e:
+        proof_err = e          # the snippets no longer have the modelled shape: keep the last model and search for a failing call
+    try:
+        if proof_err is not None:
+            raise proof_err
         ctx.prove(PROP, extra_targets=['theories/C04/Corr.vo'])
     except CoqFailure as e:
         proof_err = e
@@ -222,7 +227,7 @@ def run(ctx):
 def replay(ctx, path):
     with open(path) as f:
         body = json.load(f)
-    regenerate(ctx)
+    ctx.safe_regenerate(regenerate)
     r = body['record']
     if 'signature' in r:
         o = run_impl('c04_impl.py', {'cases': [{'sig': r['signature'], 'calls': [r['call']]}]})
